@@ -338,8 +338,10 @@ class World:
         del STATUS_LOG[:]
         del LOG[:]
         kw.setdefault('threads', False)
+        keep_finalizer = kw.pop('keep_finalizer', False)
         p = bp.Pool(n, context=FakeCtx(), **kw)
-        p._terminate.cancel()       # never let a Finalize run on stale state
+        if not keep_finalizer:
+            p._terminate.cancel()   # never let a Finalize run on stale state
         if isinstance(p.lost_worker_timeout, float) and p.lost_worker_timeout == int(p.lost_worker_timeout):
             # cut: 10.0 -> 10, clock arithmetic stays in the integers (a symbolic
             # float caps every CrossHair verdict at "unknown")
